@@ -70,6 +70,7 @@ func child(args []string) {
 	if len(args) == 0 {
 		os.Exit(2)
 	}
+	coverFlusher()
 	if args[0] == "server" {
 		if serverChild == nil {
 			fmt.Fprintln(os.Stderr, "this binary was built without the server worker")
